@@ -59,6 +59,15 @@ def _case(draw, nmax):
                             second["expected"][j]["idx"] = old_idx
             case["second"] = second
             case["second_route"] = draw(st.sampled_from(["constructor-list", "add-from-file"]))
+    if draw(st.integers(0, 4)) == 0:
+        # earlier in the session a KROME file with directives was refused half-way (a misspelt species) and the error was caught
+        case["prior_fault"] = draw(st.sampled_from(["@format:idx,R,P,P,rate\n@common:vt_leak\n@var:vt_z = 2.0*Tgas\n1,H,H2,H,1.0d-10\n2,Xx9,H,H,1.0d-10\n",
+                                                    "@format:R,R,P,Tmin,Tmax,rate\nH,H,H2,10,300,1.0d-10\nH,Qq,H2,NONE,NONE,1.0d-10\n"]))
+    if case.get("second"):
+        pass
+    elif case["fmt"] != "krome" and len(case["lines"]) >= 2 and draw(st.integers(0, 5)) == 0:
+        # a database delivered in several files of one format: Network(filelist=[f1, ..., fK], fileformats="<one name>")
+        case["split"] = draw(st.integers(2, 9))
     return case
 
 
@@ -89,6 +98,23 @@ def read_network(case):
         if case.get("elements"):
             kw = dict(elements=list(case["elements"]), pseudo_elements=list(case["pseudo_elements"]))
         sec = case.get("second")
+        if not sec and case.get("split"):
+            # contiguous chunks of the lines (a chunk may be empty), one file each, one format name for all of them
+            k = case["split"]
+            n = len(case["lines"])
+            cuts = [round(j * n / k) for j in range(k + 1)]
+            paths = []
+            try:
+                for j in range(k):
+                    fdj, pj = tempfile.mkstemp(prefix="vt-", suffix="." + case["fmt"])
+                    paths.append(pj)
+                    with os.fdopen(fdj, "w") as f:
+                        chunk = case["lines"][cuts[j]:cuts[j + 1]]
+                        f.write("\n".join(chunk) + ("\n" if chunk else ""))
+                return Network(filelist=paths, fileformats=case["fmt"], **kw)
+            finally:
+                for pj in paths:
+                    os.unlink(pj)
         if not sec:
             return Network(filelist=path, fileformats=case["fmt"], **kw)
         fd2, path2 = tempfile.mkstemp(prefix="vt-", suffix="." + sec["fmt"])
@@ -151,11 +177,32 @@ def check_case(case, tier):
         labels.append("blank-line")
     if case.get("elements"):
         labels.append("custom-symbol-lists")
+    if case.get("split"):
+        labels.append(f"split-into-{'2-4' if case['split'] <= 4 else '5-9'}-files-one-format-name")
     second = case.get("second")
     if second:
         labels += ["two-files", f"second-{case['second_route']}"]
         if {lr["idx"] for lr in second["expected"]} & {lr.get("idx") for lr in case["expected"]} - {-1}:
             labels.append("index-reused-by-second-file")
+    if case.get("prior_fault"):
+        labels.append("after-a-refused-krome-file")
+        from naunet.network import Network
+
+        fd0, p0 = tempfile.mkstemp(prefix="vt-", suffix=".krome")
+        with os.fdopen(fd0, "w") as f0:
+            f0.write(case["prior_fault"])
+        try:
+            Network(filelist=p0, fileformats="krome")
+            raise RuntimeError("harness: the faulty KROME file was accepted")
+        except RuntimeError as e0:
+            if str(e0).startswith("harness:"):
+                raise
+        except Exception:
+            pass
+        finally:
+            os.unlink(p0)
+    if case.get("standard_layout"):
+        labels.append("krome-standard-layout-no-directive")
     try:
         net = read_network(case)
     except Exception as e:
